@@ -4,6 +4,7 @@ import (
 	"github.com/superfly/litefs/consul"
 	"bytes"
 	"context"
+	"encoding/hex"
 	"errors"
 	"fmt"
 	"io"
@@ -338,9 +339,11 @@ type clusterNode struct {
 	client *netClient
 	up     bool
 	cand   bool
+	filter []string // names of the databases this node replicates (Store.DatabaseFilter); empty = all
 }
 
 type clusterImpl struct {
+	xdbs map[string]bool // names of other databases made with `xdb`
 	consul *fakeConsul
 	genIDs []string
 	c      *Ctx
@@ -485,6 +488,7 @@ func (m *clusterImpl) start(k int) string {
 		}
 		st.Leaser = n.leaser
 		st.Client = n.client
+		st.DatabaseFilter = append([]string{}, n.filter...)
 		st.ReconnectDelay = 3 * time.Millisecond
 		st.DemoteDelay = 20 * time.Millisecond
 		st.HaltLockMonitorInterval = 15 * time.Millisecond
@@ -573,6 +577,16 @@ func (m *clusterImpl) settled() (bool, string) {
 			if _, ok := ppm[k]; !ok {
 				delete(rpm, k)
 			}
+		}
+		want := want
+		if len(n.filter) > 0 { // a replica that is configured to replicate only some databases
+			fpm := map[string]ltx.Pos{}
+			for _, name := range n.filter {
+				if v, ok := ppm[name]; ok {
+					fpm[name] = v
+				}
+			}
+			want = posMapStr(fpm)
 		}
 		if got := posMapStr(rpm); got != want {
 			return false, fmt.Sprintf("node %d lags", i)
@@ -1080,6 +1094,93 @@ func (m *clusterImpl) Do(line string) string {
 			m.c.Stats.Notes = append(m.c.Stats.Notes, "sync: "+why)
 		}
 		return "lag"
+	case "filter": // filter <k> <hex name,hex name,...>: the databases node k replicates when it is a replica (takes effect at its next start)
+		if len(f) != 3 {
+			return "bad-op"
+		}
+		n, _ := m.node(f[1])
+		if n == nil || n.up {
+			return "bad-op"
+		}
+		n.filter = nil
+		for _, hx := range strings.Split(f[2], ",") {
+			b, err := hex.DecodeString(hx)
+			if err != nil || len(b) == 0 {
+				return "bad-op"
+			}
+			n.filter = append(n.filter, string(b))
+		}
+		return "ok"
+	case "xdb": // xdb <k> <hex name> <image>: one transaction (import) on another database of node k
+		if len(f) != 4 {
+			return "bad-op"
+		}
+		n, _ := m.node(f[1])
+		nb, err := hex.DecodeString(f[2])
+		data, ok := bytesOf(f[3])
+		if n == nil || !n.up || err != nil || !ok || len(nb) == 0 {
+			return "bad-op"
+		}
+		db, err := n.eng.store.CreateDBIfNotExists(string(nb))
+		if err != nil {
+			return "err"
+		}
+		db.Now = func() time.Time { return fixedNow }
+		ictx, icancel := context.WithTimeout(context.Background(), 2*time.Second)
+		defer icancel()
+		if err := db.Import(ictx, bytes.NewReader(data)); err != nil {
+			return errStr(err)
+		}
+		if m.xdbs == nil {
+			m.xdbs = map[string]bool{}
+		}
+		m.xdbs[string(nb)] = true
+		return "ok"
+	case "xdb-check": // every connected replica holds each of the primary's other databases it is configured to replicate at the primary's position, and none of the others
+		var prim *clusterNode
+		for _, n := range m.nodes {
+			if n.up && n.eng.store != nil && n.eng.store.IsPrimary() {
+				prim = n
+			}
+		}
+		if prim == nil {
+			return "no-primary"
+		}
+		verdict := "ok"
+		for i := 0; i < 400; i++ {
+			verdict = "ok"
+			for k, n := range m.nodes {
+				if n == prim || !n.up || n.eng.store == nil {
+					continue
+				}
+				for name := range m.xdbs {
+					pdb := prim.eng.store.DB(name)
+					if pdb == nil {
+						continue
+					}
+					wanted := len(n.filter) == 0
+					for _, fn := range n.filter {
+						if fn == name {
+							wanted = true
+						}
+					}
+					rdb := n.eng.store.DB(name)
+					switch {
+					case wanted && rdb == nil:
+						verdict = fmt.Sprintf("mismatch: node %d does not have database %q, which it is configured to replicate (primary at %s)", k, name, pdb.Pos())
+					case wanted && rdb.Pos() != pdb.Pos():
+						verdict = fmt.Sprintf("mismatch: node %d holds %q at %s, the primary is at %s", k, name, rdb.Pos(), pdb.Pos())
+					case !wanted && rdb != nil && rdb.Pos().TXID != 0:
+						verdict = fmt.Sprintf("mismatch: node %d replicated %q although its filter leaves it out", k, name)
+					}
+				}
+			}
+			if verdict == "ok" {
+				break
+			}
+			time.Sleep(5 * time.Millisecond)
+		}
+		return verdict
 	case "wait-ms": // wait-ms <n>: real time passes (a time-out of the code under test runs out)
 		if len(f) != 2 {
 			return "bad-op"
